@@ -451,7 +451,7 @@ def run_dev_history(hist):
 
 def part_dev(ctx, extra):
     rng = ctx.rng
-    n_hist = ctx.n(180, 2500)
+    n_hist = ctx.n(180, 2000)
     cases, meta = [], []
     hists = [c["history"] for c in extra if c.get("part") == "dev"]
     for _ in range(n_hist):
@@ -649,7 +649,7 @@ def byname_violation(ops, res):
 def part_byname(ctx, extra):
     import bob.state
     rng = ctx.rng
-    n_seq = ctx.n(200, 3000)
+    n_seq = ctx.n(200, 2000)
     bases = ["work/a/dist", "work/a/build", "work/a/src", "work/a-b/dist", "work/lib/x/dist", "work/a/dist/", "work/1/dist",
              "work/a/dist/1"]
     cases, meta = [], []
@@ -1053,8 +1053,9 @@ def clean_oracle_checks(ctx, case, ob):
         kind_of.setdefault(p, set()).add(kind)
     specs = dict((p, s) for p, s in ob["ds_specs"])
     for d in deleted:
-        sp = specs.get(d)
-        if sp is not None and sp[0] in ("src", "src-scm"):
+        # a source workspace = a directory that was assigned to a checkout step (not: whatever state is recorded)
+        # (a directory shared by steps of different kinds -- equal Variant-Ids across kinds -- is outside the statement)
+        if kind_of.get(d) == {"src"}:
             if not f["src"]:
                 ctx.violation("clean-deletes-source-without-s", "source workspace %s deleted without -s" % d, case)
                 return
@@ -1167,7 +1168,7 @@ def shrink_clean_case(case, sig, budget=60):
 
 def part_clean(ctx, extra):
     rng = ctx.rng
-    n = ctx.n(160, 2000)
+    n = ctx.n(160, 1500)
     cases, meta = [], []
     todo = [c for c in extra if c.get("part") == "clean"] + [gen_clean_case(rng) for _ in range(n)]
     reported = set()
@@ -1213,7 +1214,7 @@ def part_prepare(ctx, extra):
     import bob.state
     from bob.builder import LocalBuilder
     rng = ctx.rng
-    n = ctx.n(150, 2000)
+    n = ctx.n(150, 1500)
     cases, meta = [], []
     for ci in range(n):
         there = rng.choice(["none", "dir", "dir", "dir", "link", "file"])
@@ -1768,7 +1769,7 @@ def e2e_project(seed, nops, tier):
 def e2e_start(ctx, extra):
     """launch the subprocess scenarios in worker threads (they only use absolute paths); the in-process parts run
     in the meantime"""
-    nproj = ctx.n(7, 50)
+    nproj = ctx.n(7, 40)
     nops = ctx.n(10, 14)
     seeds = [c["seed"] for c in extra if c.get("part") == "e2e"] + [ctx.rng.randrange(1 << 30) for _ in range(nproj)]
     ex = ThreadPoolExecutor(max_workers=4)
